@@ -3709,7 +3709,8 @@ impl XmlUnexpandedEntityReference {
     }
 
     pub fn value(&self) -> error::Result<String> {
-        attr_value_from_name(self.name(), self.context())
+        let in_attribute = matches!(self.parent_item().as_deref(), Some(XmlItem::Attribute(_)));
+        entity_value_from_name(self.name(), self.context(), in_attribute)
     }
 }
 
@@ -4207,6 +4208,10 @@ fn attribute_name(name: &parser::AttributeName) -> (String, Option<String>) {
 }
 
 fn attr_value_from_name(name: &str, context: &Context) -> error::Result<String> {
+    entity_value_from_name(name, context, true)
+}
+
+fn entity_value_from_name(name: &str, context: &Context, normalize: bool) -> error::Result<String> {
     let entity = context.entity(name)?;
     let mut parsed = String::new();
     for value in entity.borrow().values().unwrap_or_default() {
@@ -4217,13 +4222,14 @@ fn attr_value_from_name(name: &str, context: &Context) -> error::Result<String> 
                 _ => unreachable!(),
             },
             XmlEntityValue::Entity(v) => {
-                let v = attr_value_from_name(v, context)?;
+                let v = entity_value_from_name(v, context, normalize)?;
                 parsed.push_str(v.as_str());
             }
             XmlEntityValue::Parameter(_) => {
                 unimplemented!("Not support parameter entity reference.")
             }
-            XmlEntityValue::Text(v) => parsed.push_str(normalize_ws(v).as_str()),
+            XmlEntityValue::Text(v) if normalize => parsed.push_str(normalize_ws(v).as_str()),
+            XmlEntityValue::Text(v) => parsed.push_str(v),
         }
     }
     Ok(parsed)
